@@ -30,6 +30,9 @@ T = {
  "C09": ("step-by-step comparison with a naive nd-array reference model",
          "Exploration: random chains of layout operations on contiguous and non-contiguous sources, each intermediate compared with a naive shape+Vec model through get(), iter() and to_vec().",
          "The naive model's numpy-style slicing semantics are the reference."),
+ "C10": ("runtime monitoring of shape-inference claims against execution: symbolic tensors captured from the real inference driver through a hook, evaluated under the symbol binding of concrete runs",
+         "Exploration: tens of thousands (quick) to hundreds of thousands (thorough) of generated models - every catalogue operator alone with fixed/symbolic/mixed input declarations and all attribute settings, shape-arithmetic chains (Shape/Gather/Concat/arithmetic/Equal/Where/Range with negated and scaled dims), fusion patterns, control flow, random DAGs - run with every value requested; each claimed rank, fixed or symbolic dimension and element value is evaluated exactly and compared with the value execution produced. Evidence counts decided claims per operator.",
+         "Reach is the generator's catalogue and the shapes it draws; a claim that is not decidable (unbound synthetic symbol, i32 overflow, division by zero) is counted, not judged."),
  "C11": ("reference-model monitoring: 128-bit evaluator vs simplify/range/is_positive on exhaustive and random expressions",
          "Exploration, exhaustive for depth <= 2: all 26.8M expression trees over nine operators and 15 leaves, rewrite-rule templates and seeded random trees to depth 5, each evaluated on a grid of admissible assignments.",
          "Negative inexact Div quotients (doc says floor, implementation truncates) and overflow inside the simplified expression are excluded / read leniently."),
